@@ -1124,3 +1124,80 @@ Lemma manifest_example :
   needs_rewrite (appended (create_new 20) (hd [] bs)) = true /\
   reload (m_fs (log_all (create_new 20) bs)) = RpOk (m_ver (log_all (create_new 20) bs)).
 Proof. cbn zeta. split; vm_compute; reflexivity. Qed.
+
+(** * 10. I/O errors during LogEdits *)
+
+Lemma man_get_tmp fs t id : man_get (set_tmp fs t) id = man_get fs id.
+Proof. reflexivity. Qed.
+
+Lemma minv_faulted m E f : minv m E -> minv (faulted m f) E.
+Proof.
+  intro Hm. pose proof (new_id_next m E Hm) as Hid.
+  destruct Hm as [Hc Hs [ds (Hg & Hok & Hq & Hn)] Hv Hhist Hfree Hlt].
+  unfold faulted. rewrite Hid.
+  assert (Hget : forall bs id, id <> m_next m -> man_get (man_set (m_fs m) (m_next m) bs) id = man_get (m_fs m) id).
+  { intros bs id Hne. rewrite man_get_set. destruct (id =? m_next m) eqn:E1; [lia|reflexivity]. }
+  constructor; cbn [m_fs m_cur m_next m_ver]; try assumption; try lia.
+  - destruct f; cbn [set_tmp man_set f_current]; exact Hc.
+  - destruct f; cbn [set_tmp man_set f_man]; try exact Hs; now apply Nsorted_upsert.
+  - exists ds. split; [|auto]. destruct f; rewrite ?man_get_tmp, ?Hget by lia; exact Hg.
+  - intros id Hge. destruct f; rewrite ?man_get_tmp, ?Hget by lia; apply Hfree; lia.
+Qed.
+
+(** the edits that were applied: those of the calls whose batch write did not fail *)
+Fixpoint applied (steps : list (list edit * fault)) : list edit :=
+  match steps with
+  | [] => []
+  | (b, FAppendWrite) :: steps' => applied steps'
+  | (b, _) :: steps' => b ++ applied steps'
+  end.
+
+Lemma minv_log_edits_f m E b f :
+  minv m E -> (f <> FAppendWrite -> hist_ok (m_ver m) b) ->
+  minv (fst (log_edits_f m b f)) (E ++ applied [(b, f)]).
+Proof.
+  intros Hm Hh. destruct f; cbn [log_edits_f applied fst]; rewrite ?app_nil_r;
+    try (pose proof (minv_appended m E b Hm (Hh ltac:(discriminate))) as H1).
+  - apply minv_log_edits; [exact Hm|apply Hh; discriminate].
+  - exact Hm.
+  - destruct (needs_rewrite (appended m b)); cbn [fst]; [now apply minv_faulted|exact H1].
+  - destruct (needs_rewrite (appended m b)); cbn [fst]; [now apply minv_faulted|exact H1].
+  - destruct (needs_rewrite (appended m b)); cbn [fst]; [now apply minv_faulted|exact H1].
+  - destruct (needs_rewrite (appended m b)); cbn [fst]; [now apply minv_faulted|exact H1].
+  - destruct (needs_rewrite (appended m b)); cbn [fst]; [now apply minv_faulted|exact H1].
+Qed.
+
+Lemma applied_cons b f steps : applied ((b, f) :: steps) = applied [(b, f)] ++ applied steps.
+Proof. destruct f; cbn [applied app]; rewrite ?app_nil_r; reflexivity. Qed.
+
+Lemma minv_log_all_f steps : forall m E,
+  minv m E -> hist_ok (m_ver m) (applied steps) -> minv (fst (log_all_f m steps)) (E ++ applied steps).
+Proof.
+  induction steps as [|[b f] steps IH]; intros m E Hm Hh.
+  - cbn. now rewrite app_nil_r.
+  - rewrite applied_cons in *. apply hist_ok_app in Hh as [Hb Hrest].
+    cbn [log_all_f]. destruct (log_edits_f m b f) as [m1 e] eqn:E1.
+    destruct (log_all_f m1 steps) as [m2 es] eqn:E2. cbn [fst].
+    assert (Hm1 : minv m1 (E ++ applied [(b, f)])).
+    { replace m1 with (fst (log_edits_f m b f)) by now rewrite E1.
+      apply minv_log_edits_f; [exact Hm|]. intro Hne. destruct f; cbn [applied] in Hb; rewrite ?app_nil_r in Hb; try exact Hb. contradiction. }
+    rewrite app_assoc. replace m2 with (fst (log_all_f m1 steps)) by now rewrite E2.
+    apply IH; [exact Hm1|]. rewrite (mi_ver _ _ Hm1). unfold state_after. rewrite apply_all_app.
+    fold (state_after E). now rewrite <- (mi_ver _ _ Hm).
+Qed.
+
+(** C15_reload_faults: with I/O errors injected into any of the calls, memory is the fold of
+    the applied edits and a reopened manager reads an equal version *)
+Lemma reload_faults thr steps :
+  hist_ok empty_version (applied steps) ->
+  let m := fst (log_all_f (create_new thr) steps) in
+  m_ver m = state_after (applied steps) /\
+  exists v', reload (m_fs m) = RpOk v' /\ version_eq v' (m_ver m).
+Proof.
+  intro Hh. cbn zeta.
+  pose proof (minv_log_all_f steps (create_new thr) [] (minv_create thr) Hh) as Hm. cbn [app] in Hm.
+  split; [exact (mi_ver _ _ Hm)|].
+  destruct (mi_ds _ _ Hm) as [ds (Hg & Hok & Hq & _)].
+  exists (apply_all empty_version ds). split; [|exact Hq].
+  unfold reload. rewrite (mi_cur _ _ Hm), Hg. now apply replay_enc.
+Qed.
